@@ -1,12 +1,15 @@
-/-! C17 prototype: small-step model of the repaired `synchronized` wrapper (lock looked up under a guard,
-    release in `finally`), any number of threads, one oracle; mutual exclusion and no wedging. -/
+/-! C17: small-step model of the repaired `synchronized` wrapper (per-oracle lock looked up under a guard —
+    modelled as an atomic lookup —, owner table, release in `finally`), any number of threads, one oracle.
+    The wrapped method is a non-atomic read-modify-write of the oracle state (`body1` reads, `body2`
+    writes `f t` of what it read), so that lost updates would be visible. -/
 namespace Sync
 
 inductive Pc
   | idle                       -- between calls
   | decided (need : Bool)      -- has read THREADS[oracle]
   | acquired                   -- holds the lock, owner not yet written
-  | body (need : Bool)         -- inside the wrapped function
+  | body1 (need : Bool)        -- inside the wrapped function, before reading the state
+  | body2 (need : Bool)        -- has read the state, about to write
   | after (need raised : Bool) -- function returned or raised
   | cleared (raised : Bool)    -- owner cleared, lock not yet released
   deriving DecidableEq, Repr
@@ -15,59 +18,88 @@ structure G where
   held : Option Nat            -- thread holding the oracle's lock
   owner : Option Nat           -- THREADS[oracle]
   pc : Nat → Pc
+  st : Nat                     -- the oracle's state
+  loc : Nat → Nat              -- per thread: the state it read
+  log : List Nat               -- threads whose write has happened, oldest first
 
 def setPc (g : G) (t : Nat) (p : Pc) : G := { g with pc := fun u => if u = t then p else g.pc u }
 
-/-- one step of thread `t`; `raise` is the environment's choice whether the body raises.
+variable (f : Nat → Nat → Nat)
+
+/-- one step of thread `t`; `raise` is the environment's choice whether the body raises (before writing).
     `none` = the thread is blocked (lock not free) -/
 def step (g : G) (t : Nat) (raise : Bool) : Option G :=
   match g.pc t with
   | .idle => some (setPc g t (.decided (decide (g.owner ≠ some t))))
   | .decided true => if g.held = none then some (setPc { g with held := some t } t .acquired) else none
-  | .decided false => some (setPc g t (.body false))
-  | .acquired => some (setPc { g with owner := some t } t (.body true))
-  | .body need => some (setPc g t (.after need raise))
+  | .decided false => some (setPc g t (.body1 false))
+  | .acquired => some (setPc { g with owner := some t } t (.body1 true))
+  | .body1 need =>
+    if raise then some (setPc g t (.after need true))
+    else some (setPc { g with loc := fun u => if u = t then g.st else g.loc u } t (.body2 need))
+  | .body2 need => some (setPc { g with st := f t (g.loc t), log := g.log ++ [t] } t (.after need false))
   | .after true r => some (setPc { g with owner := none } t (.cleared r))
   | .after false _ => some (setPc g t .idle)
   | .cleared _ => some (setPc { g with held := none } t .idle)
 
 def inCS : Pc → Bool
-  | .acquired | .body true | .after true _ | .cleared _ => true
+  | .acquired | .body1 true | .body2 true | .after true _ | .cleared _ => true
   | _ => false
 
 def ownsName : Pc → Bool
-  | .body true | .after true _ => true
+  | .body1 true | .body2 true | .after true _ => true
   | _ => false
 
-structure Inv (g : G) : Prop where
+theorem owns_inCS (p : Pc) (h : ownsName p = true) : inCS p = true := by
+  cases p with
+  | body1 n => cases n <;> simp_all [ownsName, inCS]
+  | body2 n => cases n <;> simp_all [ownsName, inCS]
+  | after n r => cases n <;> simp_all [ownsName, inCS]
+  | _ => simp [ownsName] at h
+
+def seqState (s0 : Nat) (log : List Nat) : Nat := log.foldl (fun s t => f t s) s0
+
+structure Inv (s0 : Nat) (g : G) : Prop where
   held_cs : ∀ t, g.held = some t ↔ inCS (g.pc t) = true
   owner_ok : ∀ t, g.owner = some t → ownsName (g.pc t) = true
-  no_reent : ∀ t, g.pc t ≠ .decided false ∧ g.pc t ≠ .body false ∧ ∀ r, g.pc t ≠ .after false r
+  body_owner : ∀ t, ownsName (g.pc t) = true → g.owner = some t
+  no_reent : ∀ t, g.pc t ≠ .decided false ∧ g.pc t ≠ .body1 false ∧ g.pc t ≠ .body2 false ∧ ∀ r, g.pc t ≠ .after false r
+  lin : g.st = seqState f s0 g.log
+  loc_ok : ∀ t, g.pc t = .body2 true → g.loc t = g.st
 
-def init : G := { held := none, owner := none, pc := fun _ => .idle }
+def init (s0 : Nat) : G := { held := none, owner := none, pc := fun _ => .idle, st := s0, loc := fun _ => 0, log := [] }
 
-theorem inv_init : Inv init := by
-  constructor <;> simp [init, inCS, ownsName]
+theorem inv_init (s0 : Nat) : Inv f s0 (init s0) := by
+  constructor <;> simp [init, inCS, ownsName, seqState]
 
 /-- mutual exclusion is a consequence of the invariant: two threads in the critical section coincide -/
-theorem mutex_of_inv (g : G) (h : Inv g) (t u : Nat) (ht : inCS (g.pc t) = true) (hu : inCS (g.pc u) = true) : t = u := by
+theorem mutex_of_inv (s0 : Nat) (g : G) (h : Inv f s0 g) (t u : Nat) (ht : inCS (g.pc t) = true) (hu : inCS (g.pc u) = true) : t = u := by
   have h1 := (h.held_cs t).mpr ht
   have h2 := (h.held_cs u).mpr hu
   rw [h1] at h2; exact Option.some.inj h2
 
-theorem inv_step (g g' : G) (t : Nat) (r : Bool) (h : Inv g) (hs : step g t r = some g') : Inv g' := by
+theorem inv_step (s0 : Nat) (g g' : G) (t : Nat) (r : Bool) (h : Inv f s0 g) (hs : step f g t r = some g') : Inv f s0 g' := by
   unfold step at hs
   have hcs := h.held_cs
   have hown := h.owner_ok
+  have hbo := h.body_owner
   have hnr := h.no_reent
+  have hlin := h.lin
+  have hloc := h.loc_ok
+  -- a thread in the critical section holds the lock; any other thread in the critical section contradicts it
+  have excl : ∀ u, inCS (g.pc t) = true → u ≠ t → inCS (g.pc u) = false := by
+    intro u ht hu
+    cases hc : inCS (g.pc u) with
+    | false => rfl
+    | true => exact absurd (mutex_of_inv f s0 g h u t hc ht) hu
   cases hpc : g.pc t with
   | idle =>
     simp only [hpc] at hs
-    have : g.owner ≠ some t := by
+    have hno : g.owner ≠ some t := by
       intro ho; have := hown t ho; rw [hpc] at this; simp [ownsName] at this
-    simp only [this, ne_eq, not_false_eq_true, decide_true, Option.some.injEq] at hs
+    simp only [hno, ne_eq, not_false_eq_true, decide_true, Option.some.injEq] at hs
     subst hs
-    constructor
+    refine ⟨?_, ?_, ?_, ?_, hlin, ?_⟩
     · intro u
       by_cases hu : u = t
       · subst hu; simp only [setPc, if_true, inCS]
@@ -75,12 +107,20 @@ theorem inv_step (g g' : G) (t : Nat) (r : Bool) (h : Inv g) (hs : step g t r = 
       · simp only [setPc, hu, if_false]; exact hcs u
     · intro u ho
       by_cases hu : u = t
-      · subst hu; exact absurd ho this
+      · subst hu; exact absurd ho hno
       · simp only [setPc, hu, if_false]; exact hown u ho
+    · intro u hu'
+      by_cases hu : u = t
+      · subst hu; simp [setPc, ownsName] at hu'
+      · simp only [setPc, hu, if_false] at hu'; exact hbo u hu'
     · intro u
       by_cases hu : u = t
       · subst hu; simp [setPc]
       · simp only [setPc, hu, if_false]; exact hnr u
+    · intro u hu'
+      by_cases hu : u = t
+      · subst hu; simp [setPc] at hu'
+      · simp only [setPc, hu, if_false] at hu'; exact hloc u hu'
   | decided need =>
     cases need with
     | false => exact absurd hpc (hnr t).1
@@ -89,7 +129,7 @@ theorem inv_step (g g' : G) (t : Nat) (r : Bool) (h : Inv g) (hs : step g t r = 
       split at hs
       · rename_i hfree
         simp only [Option.some.injEq] at hs; subst hs
-        constructor
+        refine ⟨?_, ?_, ?_, ?_, hlin, ?_⟩
         · intro u
           by_cases hu : u = t
           · subst hu; simp [setPc, inCS]
@@ -101,15 +141,24 @@ theorem inv_step (g g' : G) (t : Nat) (r : Bool) (h : Inv g) (hs : step g t r = 
           by_cases hu : u = t
           · subst hu; have := hown u ho; rw [hpc] at this; simp [ownsName] at this
           · simp only [setPc, hu, if_false]; exact hown u ho
+        · intro u hu'
+          by_cases hu : u = t
+          · subst hu; simp [setPc, ownsName] at hu'
+          · simp only [setPc, hu, if_false] at hu'; exact hbo u hu'
         · intro u
           by_cases hu : u = t
           · subst hu; simp [setPc]
           · simp only [setPc, hu, if_false]; exact hnr u
+        · intro u hu'
+          by_cases hu : u = t
+          · subst hu; simp [setPc] at hu'
+          · simp only [setPc, hu, if_false] at hu'; exact hloc u hu'
       · cases hs
   | acquired =>
     simp only [hpc, Option.some.injEq] at hs; subst hs
-    have hheld : g.held = some t := (hcs t).mpr (by rw [hpc]; rfl)
-    constructor
+    have hin : inCS (g.pc t) = true := by rw [hpc]; rfl
+    have hheld : g.held = some t := (hcs t).mpr hin
+    refine ⟨?_, ?_, ?_, ?_, hlin, ?_⟩
     · intro u
       by_cases hu : u = t
       · subst hu; simp [setPc, inCS, hheld]
@@ -117,17 +166,88 @@ theorem inv_step (g g' : G) (t : Nat) (r : Bool) (h : Inv g) (hs : step g t r = 
     · intro u ho
       have hut : t = u := Option.some.inj ho
       subst hut; simp [setPc, ownsName]
+    · intro u hu'
+      by_cases hu : u = t
+      · subst hu; rfl
+      · simp only [setPc, hu, if_false] at hu'
+        have h1 := excl u hin hu
+        have h2 : inCS (g.pc u) = true := owns_inCS _ hu'
+        rw [h1] at h2; cases h2
     · intro u
       by_cases hu : u = t
       · subst hu; simp [setPc]
       · simp only [setPc, hu, if_false]; exact hnr u
-  | body need =>
+    · intro u hu'
+      by_cases hu : u = t
+      · subst hu; simp [setPc] at hu'
+      · simp only [setPc, hu, if_false] at hu'; exact hloc u hu'
+  | body1 need =>
     cases need with
     | false => exact absurd hpc (hnr t).2.1
     | true =>
+      have hin : inCS (g.pc t) = true := by rw [hpc]; rfl
+      have hheld : g.held = some t := (hcs t).mpr hin
+      have hownt : g.owner = some t := hbo t (by rw [hpc]; rfl)
+      simp only [hpc] at hs
+      cases r with
+      | true =>
+        simp only [if_true, Option.some.injEq] at hs; subst hs
+        refine ⟨?_, ?_, ?_, ?_, hlin, ?_⟩
+        · intro u
+          by_cases hu : u = t
+          · subst hu; simp [setPc, inCS, hheld]
+          · simp only [setPc, hu, if_false]; exact hcs u
+        · intro u ho
+          by_cases hu : u = t
+          · subst hu; simp [setPc, ownsName]
+          · simp only [setPc, hu, if_false]; exact hown u ho
+        · intro u hu'
+          by_cases hu : u = t
+          · subst hu; exact hownt
+          · simp only [setPc, hu, if_false] at hu'; exact hbo u hu'
+        · intro u
+          by_cases hu : u = t
+          · subst hu; simp [setPc]
+          · simp only [setPc, hu, if_false]; exact hnr u
+        · intro u hu'
+          by_cases hu : u = t
+          · subst hu; simp [setPc] at hu'
+          · simp only [setPc, hu, if_false] at hu'; exact hloc u hu'
+      | false =>
+        simp only [Bool.false_eq_true, if_false, Option.some.injEq] at hs; subst hs
+        refine ⟨?_, ?_, ?_, ?_, hlin, ?_⟩
+        · intro u
+          by_cases hu : u = t
+          · subst hu; simp [setPc, inCS, hheld]
+          · simp only [setPc, hu, if_false]; exact hcs u
+        · intro u ho
+          by_cases hu : u = t
+          · subst hu; simp [setPc, ownsName]
+          · simp only [setPc, hu, if_false]; exact hown u ho
+        · intro u hu'
+          by_cases hu : u = t
+          · subst hu; exact hownt
+          · simp only [setPc, hu, if_false] at hu'; exact hbo u hu'
+        · intro u
+          by_cases hu : u = t
+          · subst hu; simp [setPc]
+          · simp only [setPc, hu, if_false]; exact hnr u
+        · intro u hu'
+          by_cases hu : u = t
+          · subst hu; simp [setPc]
+          · simp only [setPc, hu, if_false] at hu' ⊢
+            have h1 := excl u hin hu
+            rw [hu'] at h1; simp [inCS] at h1
+  | body2 need =>
+    cases need with
+    | false => exact absurd hpc (hnr t).2.2.1
+    | true =>
+      have hin : inCS (g.pc t) = true := by rw [hpc]; rfl
+      have hheld : g.held = some t := (hcs t).mpr hin
+      have hownt : g.owner = some t := hbo t (by rw [hpc]; rfl)
+      have hl : g.loc t = g.st := hloc t hpc
       simp only [hpc, Option.some.injEq] at hs; subst hs
-      have hheld : g.held = some t := (hcs t).mpr (by rw [hpc]; rfl)
-      constructor
+      refine ⟨?_, ?_, ?_, ?_, ?_, ?_⟩
       · intro u
         by_cases hu : u = t
         · subst hu; simp [setPc, inCS, hheld]
@@ -136,30 +256,55 @@ theorem inv_step (g g' : G) (t : Nat) (r : Bool) (h : Inv g) (hs : step g t r = 
         by_cases hu : u = t
         · subst hu; simp [setPc, ownsName]
         · simp only [setPc, hu, if_false]; exact hown u ho
+      · intro u hu'
+        by_cases hu : u = t
+        · subst hu; exact hownt
+        · simp only [setPc, hu, if_false] at hu'; exact hbo u hu'
       · intro u
         by_cases hu : u = t
         · subst hu; simp [setPc]
         · simp only [setPc, hu, if_false]; exact hnr u
+      · simp only [setPc, seqState, List.foldl_append, List.foldl_cons, List.foldl_nil]
+        rw [hl, hlin]; rfl
+      · intro u hu'
+        by_cases hu : u = t
+        · subst hu; simp [setPc] at hu'
+        · simp only [setPc, hu, if_false] at hu'
+          have h1 := excl u hin hu
+          rw [hu'] at h1; simp [inCS] at h1
   | after need raised =>
     cases need with
-    | false => exact absurd hpc ((hnr t).2.2 raised)
+    | false => exact absurd hpc ((hnr t).2.2.2 raised)
     | true =>
+      have hin : inCS (g.pc t) = true := by rw [hpc]; rfl
+      have hheld : g.held = some t := (hcs t).mpr hin
       simp only [hpc, Option.some.injEq] at hs; subst hs
-      have hheld : g.held = some t := (hcs t).mpr (by rw [hpc]; rfl)
-      constructor
+      refine ⟨?_, ?_, ?_, ?_, hlin, ?_⟩
       · intro u
         by_cases hu : u = t
         · subst hu; simp [setPc, inCS, hheld]
         · simp only [setPc, hu, if_false]; exact hcs u
       · intro u ho; cases ho
+      · intro u hu'
+        by_cases hu : u = t
+        · subst hu; simp [setPc, ownsName] at hu'
+        · simp only [setPc, hu, if_false] at hu'
+          have h1 := excl u hin hu
+          have h2 : inCS (g.pc u) = true := owns_inCS _ hu'
+          rw [h1] at h2; cases h2
       · intro u
         by_cases hu : u = t
         · subst hu; simp [setPc]
         · simp only [setPc, hu, if_false]; exact hnr u
+      · intro u hu'
+        by_cases hu : u = t
+        · subst hu; simp [setPc] at hu'
+        · simp only [setPc, hu, if_false] at hu'; exact hloc u hu'
   | cleared raised =>
+    have hin : inCS (g.pc t) = true := by rw [hpc]; rfl
+    have hheld : g.held = some t := (hcs t).mpr hin
     simp only [hpc, Option.some.injEq] at hs; subst hs
-    have hheld : g.held = some t := (hcs t).mpr (by rw [hpc]; rfl)
-    constructor
+    refine ⟨?_, ?_, ?_, ?_, hlin, ?_⟩
     · intro u
       by_cases hu : u = t
       · subst hu; simp [setPc, inCS]
@@ -171,46 +316,85 @@ theorem inv_step (g g' : G) (t : Nat) (r : Bool) (h : Inv g) (hs : step g t r = 
       by_cases hu : u = t
       · subst hu; have := hown u ho; rw [hpc] at this; simp [ownsName] at this
       · simp only [setPc, hu, if_false]; exact hown u ho
+    · intro u hu'
+      by_cases hu : u = t
+      · subst hu; simp [setPc, ownsName] at hu'
+      · simp only [setPc, hu, if_false] at hu'; exact hbo u hu'
     · intro u
       by_cases hu : u = t
       · subst hu; simp [setPc]
       · simp only [setPc, hu, if_false]; exact hnr u
+    · intro u hu'
+      by_cases hu : u = t
+      · subst hu; simp [setPc] at hu'
+      · simp only [setPc, hu, if_false] at hu'; exact hloc u hu'
 
 /-- run a schedule: a list of (thread, raise?) choices; blocked steps are skipped -/
 def run (g : G) : List (Nat × Bool) → G
   | [] => g
-  | (t, r) :: rest => match step g t r with
+  | (t, r) :: rest => match step f g t r with
     | some g' => run g' rest
     | none => run g rest
 
-theorem inv_run (g : G) (h : Inv g) (sched : List (Nat × Bool)) : Inv (run g sched) := by
+theorem inv_run (s0 : Nat) (g : G) (h : Inv f s0 g) (sched : List (Nat × Bool)) : Inv f s0 (run f g sched) := by
   induction sched generalizing g with
   | nil => exact h
   | cons x xs ih =>
     obtain ⟨t, r⟩ := x
     simp only [run]
-    cases hs : step g t r with
-    | some g' => exact ih g' (inv_step g g' t r h hs)
+    cases hs : step f g t r with
+    | some g' => exact ih g' (inv_step f s0 g g' t r h hs)
     | none => exact ih g h
 
-/-- C17 (repaired wrapper): for every number of threads and every schedule, at most one thread is
-    inside the critical section, and a thread whose call has ended — normally or by an exception —
-    holds nothing: the lock is free whenever every thread is between calls. -/
-theorem mutual_exclusion (sched : List (Nat × Bool)) (t u : Nat)
-    (ht : inCS ((run init sched).pc t) = true) (hu : inCS ((run init sched).pc u) = true) : t = u :=
-  mutex_of_inv _ (inv_run init inv_init sched) t u ht hu
+/-- C17 (repaired wrapper): for every number of threads and every schedule, at most one thread is inside
+    the critical section -/
+theorem mutual_exclusion (s0 : Nat) (sched : List (Nat × Bool)) (t u : Nat)
+    (ht : inCS ((run f (init s0) sched).pc t) = true) (hu : inCS ((run f (init s0) sched).pc u) = true) : t = u :=
+  mutex_of_inv f s0 _ (inv_run f s0 (init s0) (inv_init f s0) sched) t u ht hu
 
-theorem no_wedge (sched : List (Nat × Bool)) (hidle : ∀ t, (run init sched).pc t = .idle) :
-    (run init sched).held = none ∧ (run init sched).owner = none := by
-  have h := inv_run init inv_init sched
+/-- a thread whose call has ended — normally or by an exception — holds nothing: the lock is free and
+    no owner is recorded whenever every thread is between calls -/
+theorem no_wedge (s0 : Nat) (sched : List (Nat × Bool)) (hidle : ∀ t, (run f (init s0) sched).pc t = .idle) :
+    (run f (init s0) sched).held = none ∧ (run f (init s0) sched).owner = none := by
+  have h := inv_run f s0 (init s0) (inv_init f s0) sched
   constructor
-  · cases hh : (run init sched).held with
+  · cases hh : (run f (init s0) sched).held with
     | none => rfl
     | some t => have := (h.held_cs t).mp hh; rw [hidle t] at this; simp [inCS] at this
-  · cases ho : (run init sched).owner with
+  · cases ho : (run f (init s0) sched).owner with
     | none => rfl
     | some t => have := h.owner_ok t ho; rw [hidle t] at this; simp [ownsName] at this
 
+/-- linearizability: although every call reads and writes the oracle state in two separate steps, the
+    state is always the result of applying the calls one after the other, in the order of their writes
+    (no lost update), for every schedule -/
+theorem linearizable (s0 : Nat) (sched : List (Nat × Bool)) :
+    (run f (init s0) sched).st = seqState f s0 (run f (init s0) sched).log :=
+  (inv_run f s0 (init s0) (inv_init f s0) sched).lin
+
+/-- re-entrancy: while a thread is inside the wrapped function the owner table names it, so a nested
+    synchronized call from the same thread decides `need_acquire = False` and cannot block on its own lock -/
+theorem reentrant_no_acquire (s0 : Nat) (sched : List (Nat × Bool)) (t : Nat)
+    (hin : ownsName ((run f (init s0) sched).pc t) = true) :
+    decide ((run f (init s0) sched).owner ≠ some t) = false := by
+  have := (inv_run f s0 (init s0) (inv_init f s0) sched).body_owner t hin
+  simp [this]
+
+/-- progress: whenever the lock is free a thread that wants it is not blocked; a thread inside its call is
+    never blocked (only `acquire` can block) -/
+theorem only_acquire_blocks (g : G) (t : Nat) (r : Bool) (hb : step f g t r = none) :
+    g.pc t = .decided true ∧ g.held ≠ none := by
+  unfold step at hb
+  cases hpc : g.pc t with
+  | decided need =>
+    cases need with
+    | true => simp only [hpc] at hb; split at hb; · cases hb
+              · rename_i h; exact ⟨rfl, h⟩
+    | false => simp [hpc] at hb
+  | body1 need => simp only [hpc] at hb; split at hb <;> cases hb
+  | after need raised => cases need <;> simp [hpc] at hb
+  | _ => simp [hpc] at hb
+
 end Sync
 #print axioms Sync.mutual_exclusion
-#print axioms Sync.no_wedge
+#print axioms Sync.linearizable
